@@ -1073,6 +1073,10 @@ def _candidate_centres(ck, R):
                     for d in ds:
                         if d not in ('PARAM', 'UNBOUND') and isinstance(d, (ast.Assign, ast.AnnAssign)) and _inside(mod, d, loop):
                             add(d.value)
+                    # an element of a call result that travels through names / literal positions
+                    ce = _call_element(fi, n0)
+                    if ce is not None and fi.stmt(ce[0]) is not None and _inside(mod, fi.stmt(ce[0]), loop):
+                        add(ce[0])
     try:
         cu_mod = ck.repo.mod(CU)
         atn = cu_mod.func('assign_to_nearest_center')
@@ -1100,6 +1104,13 @@ def _candidate_centres(ck, R):
     for c, a in sites:
         st = fi.stmt(c)
         n0 = _orig_name(fi, a)
+        ax = None
+        try:
+            ax = canon(fi.expand(a, strict=False, stop=tuple(lists) + (R.cid,)))
+        except Exception:
+            ax = None
+        if ax is not None and not isinstance(ax, ast.Name) and _label_positions(ck, R, c, a, ax, lists, st):
+            continue
         if not isinstance(n0, ast.Name):
             ck.missing(rule, 'centre list `%s` handed to `%s` is not a named list' % (u(a)[:60], u(c)[:80]))
             continue
@@ -1157,6 +1168,146 @@ def _candidate_centres(ck, R):
                        % (L, u(c)[:80], L, R.cid))
 
 
+def _lin_add(a, b, sign=1):
+    out = dict(a)
+    for k, v in b.items():
+        out[k] = out.get(k, 0) + sign * v
+    return {k: v for k, v in out.items() if v != 0}
+
+
+def _lin(e, cid, L):
+    """Linear form {'1': c, 'cid': a, 'len': b} of an integer expression over the centre id, literals and
+    len(<list L>); None for anything else."""
+    if isinstance(e, ast.Constant) and isinstance(e.value, int) and not isinstance(e.value, bool):
+        return {'1': e.value} if e.value else {}
+    if isinstance(e, ast.Name) and e.id == cid:
+        return {'cid': 1}
+    if isinstance(e, ast.UnaryOp) and isinstance(e.op, ast.USub):
+        x = _lin(e.operand, cid, L)
+        return None if x is None else _lin_add({}, x, -1)
+    if isinstance(e, ast.BinOp) and isinstance(e.op, (ast.Add, ast.Sub)):
+        x, y = _lin(e.left, cid, L), _lin(e.right, cid, L)
+        return None if x is None or y is None else _lin_add(x, y, 1 if isinstance(e.op, ast.Add) else -1)
+    if isinstance(e, ast.Call) and call_name(e) == 'len' and len(e.args) == 1 and not e.keywords \
+            and isinstance(e.args[0], ast.Name) and e.args[0].id == L:
+        return {'len': 1}
+    return None
+
+
+def _slice_bound(e, cid, L, default):
+    """Linear form of a slice bound that is known to lie inside the list for every centre id of the per-centre
+    loop (0 <= cid < len): a literal (a negative one counts from the end), `cid`, `cid + 1`, len(L)."""
+    if e is None:
+        return default
+    x = _lin(e, cid, L)
+    if x is None:
+        return None
+    if set(x) <= {'1'}:
+        c = x.get('1', 0)
+        return x if c >= 0 else _lin_add({'len': 1}, x)
+    if x in ({'cid': 1}, {'cid': 1, '1': 1}, {'len': 1}):
+        return x
+    return None
+
+
+def _concat_pieces(e):
+    if isinstance(e, ast.BinOp) and isinstance(e.op, ast.Add):
+        a, b = _concat_pieces(e.left), _concat_pieces(e.right)
+        return None if a is None or b is None else a + b
+    return [e]
+
+
+def _label_positions(ck, R, call, arg, ax, lists, st):
+    """The labels a re-assignment call returns are POSITIONS in the list of centres it was handed; stored into
+    the candidate labels they are read as positions in the state's centre lists (indices, coordinates - the
+    centre id of the per-centre loop).  The list handed over must therefore have the entries of the candidate
+    centre list at the same positions.  Decided here for an argument that is a concatenation of slices of a centre
+    list and list displays: by counting entries.  Returns True when a verdict was issued."""
+    rule = 'C09.D2.atomic.label-positions'
+    mod, fi, loop, cid = R.mod, R.fi, R.loop, R.cid
+    pieces = _concat_pieces(ax)
+    if pieces is None:
+        return False
+    base = None
+    total = {}
+    shape = []
+    for p_ in pieces:
+        if isinstance(p_, ast.Subscript) and isinstance(p_.value, ast.Name) and p_.value.id in lists and isinstance(p_.slice, ast.Slice) \
+                and p_.slice.step is None:
+            L = p_.value.id
+            if base is not None and base != L:
+                return False
+            base = L
+            lo = _slice_bound(p_.slice.lower, cid, L, {})
+            hi = _slice_bound(p_.slice.upper, cid, L, {'len': 1})
+            if lo is None or hi is None:
+                return False
+            total = _lin_add(total, _lin_add(hi, lo, -1))
+            shape.append(('slice', lo, hi))
+        elif isinstance(p_, ast.List) and not any(isinstance(x, ast.Starred) for x in p_.elts):
+            total = _lin_add(total, {'1': len(p_.elts)} if p_.elts else {})
+            shape.append(('items', p_.elts))
+        else:
+            return False
+    if base is None:
+        return False
+    construct = '%s  [centres = %s]' % (u(call)[:120], u(ax)[:80])
+    diff = _lin_add(total, {'len': 1}, -1)
+    if not diff:
+        # same number of entries: the spelled-out candidate list  L[:cid] + [<proposed coordinate>] + L[cid + 1:]
+        if len(shape) == 3 and shape[0] == ('slice', {}, {'cid': 1}) and shape[1][0] == 'items' and len(shape[1][1]) == 1 \
+                and shape[2] == ('slice', {'cid': 1, '1': 1}, {'len': 1}) and base == R.MC \
+                and not [x for x in fi._mutated_in_place(base) if _inside(mod, x, loop) and fi.cfg.reachable(x, st, avoiding=[loop])]:
+            pn = shape[1][1][0]         # a node of the expanded copy: compare the definitions that reach the call
+            if R.P is not None and isinstance(pn, ast.Name) and pn.id == R.P.id and fi.rd.defs_at(st, pn.id) == fi.defs_of_use(R.P):
+                ck.ok(rule, mod, call, construct, 'the re-assignment receives the current centres with the proposed coordinate '
+                      'at position %s' % cid)
+                return True
+        return False
+    if set(diff) != {'1'}:
+        return False
+    # a list with a different number of entries than the centre list.  Are the returned labels stored as they are?
+    NA = R.NA
+    if not NA:
+        return False
+    direct, other = [], []
+    for s_, t in subscript_stores(loop, NA):
+        val = getattr(s_, 'value', None)
+        ce = _call_element(fi, _orig_name(fi, val)) if val is not None else None
+        if ce is not None and ce[0] is call:
+            (direct if ce[1] == 0 else other).append((s_, ce[2]))
+    if not direct:
+        ck.missing(rule, 'centre list `%s` handed to `%s` has %+d entries relative to `%s`; how the returned labels reach the '
+                   'candidate labels `%s` was not recognised' % (u(ax)[:60], u(call)[:60], diff['1'], base, NA))
+        return True
+    s_, binders = direct[0]
+    for m in _changed_between(fi, mod, loop, binders, st, s_):
+        plain = isinstance(m, ast.Assign) and len(m.targets) == 1 and isinstance(m.targets[0], ast.Subscript)
+        if plain:
+            try:
+                reads = names_loaded(fi.expand(m.targets[0].slice, strict=False)) | names_loaded(fi.expand(m.value, strict=False))
+            except Exception:
+                reads = set(binders)
+            plain = not (reads & set(binders))
+        if not plain:
+            ck.missing(rule, 'centre list `%s` handed to `%s` has %+d entries relative to `%s`; the returned labels are changed by '
+                       '`%s` before they are stored into `%s`: whether that maps them back to positions in `%s` is not decided'
+                       % (u(ax)[:60], u(call)[:60], diff['1'], base, u(m)[:60], NA, base))
+            return True
+    ck.bad(rule, mod, call, PAM, construct,
+           'the frames that lose their centre are re-assigned against `%s`, a list with %d %s than the centre list `%s`; the '
+           'labels the call returns are positions in THAT list and `%s` stores them into the candidate labels unchanged (no '
+           'statement in between computes new labels from the returned ones). Every position at or after the first dropped '
+           'entry names a different centre in `%s` / `%s`: frames that move to such a centre get the label of its neighbour '
+           'while their candidate distance is the one to the real nearest centre, so labels and distances of the committed '
+           'state go out of step and later trips treat those frames as members of the wrong cluster. The call must receive '
+           'the whole candidate list (one entry per centre, the proposed coordinate at position %s), or the returned labels '
+           'must be mapped back to positions in it'
+           % (u(ax)[:80], abs(diff['1']), 'entry fewer' if diff['1'] == -1 else ('entries fewer' if diff['1'] < 0 else 'entries more'),
+              base, u(s_)[:80], R.MI, R.MC, cid))
+    return True
+
+
 # ---------------------------------------------------------------------------
 # D2 (cont.): the candidate arrays are filled cell by cell
 
@@ -1167,6 +1318,76 @@ def _strip_sub(e):
     while isinstance(e, ast.Subscript):
         e = e.value
     return e
+
+
+def _call_element(fi, e, depth=4):
+    """(call, k, binders) when the expression `e` denotes element k (a non-negative literal position) of the
+    tuple returned by ONE call: `a, d = f(...)` and a use of `a`; `r = f(...)` and `r[0]`; `f(...)[0]`;
+    `a = r[0]` and a use of `a`.  `binders` are the local names through which the element travels (the rule
+    that consumes the element has to look at in-place changes of those objects).  None when `e` is anything
+    else (several reaching definitions, a computed position, a starred target ...)."""
+    binders = []
+    while depth > 0:
+        depth -= 1
+        if isinstance(e, ast.Subscript):
+            k = const_value(e.slice)
+            if not isinstance(k, int) or isinstance(k, bool) or k < 0:
+                return None
+            base = e.value
+            if isinstance(base, ast.Call):
+                return base, k, binders
+            if not isinstance(base, ast.Name):
+                return None
+            try:
+                ds = fi.defs_of_use(base)
+            except Exception:
+                return None
+            if len(ds) != 1:
+                return None
+            d = next(iter(ds))
+            if d in ('PARAM', 'UNBOUND') or not (isinstance(d, ast.Assign) and len(d.targets) == 1 and isinstance(d.targets[0], ast.Name)
+                                                 and isinstance(d.value, ast.Call)):
+                return None
+            binders.append(base.id)
+            return d.value, k, binders
+        if not isinstance(e, ast.Name):
+            return None
+        try:
+            ds = fi.defs_of_use(e)
+        except Exception:
+            return None
+        if len(ds) != 1:
+            return None
+        d = next(iter(ds))
+        if d in ('PARAM', 'UNBOUND') or not isinstance(d, ast.Assign) or len(d.targets) != 1:
+            return None
+        t = d.targets[0]
+        binders.append(e.id)
+        if isinstance(t, (ast.Tuple, ast.List)) and isinstance(d.value, ast.Call):
+            if any(isinstance(x, ast.Starred) for x in t.elts):
+                return None
+            for k, x in enumerate(t.elts):
+                if isinstance(x, ast.Name) and x.id == e.id:
+                    return d.value, k, binders
+            return None
+        if isinstance(t, ast.Name) and isinstance(d.value, (ast.Subscript, ast.Name)):
+            e = d.value
+            continue
+        return None
+    return None
+
+
+def _changed_between(fi, mod, loop, names, a, b):
+    """Statements that change one of the objects `names` in place on a path from statement `a` to statement
+    `b` within one trip of `loop`."""
+    out = []
+    for nm in names:
+        for m in fi._mutated_in_place(nm):
+            if m is a or m is b or not _inside(mod, m, loop) or any(m is x for x in out):
+                continue
+            if fi.cfg.reachable(a, m, avoiding=[loop, b]) and fi.cfg.reachable(m, b, avoiding=[loop, a]):
+                out.append(m)
+    return out
 
 
 def _candidate_partition(ck, R):
@@ -1223,28 +1444,36 @@ def _candidate_partition(ck, R):
                 return own if op is ast.Eq else not own
         return None
 
-    def reassigned(e):
-        """(call, k) when the Name `e` is element k of `<a>, <d> = assign_to_nearest_center(...)`."""
-        if not isinstance(e, ast.Name):
+    try:
+        cu_mod = ck.repo.mod(CU)
+        atn = cu_mod.func('assign_to_nearest_center')
+    except AnalysisIncomplete:
+        cu_mod = atn = None
+
+    def reassigned(e, store):
+        """(call, k, data argument, changed) when the value `e` stored by `store` is element k of the result of
+        a call of assign_to_nearest_center (unpacked, indexed, or through a named result); `changed` lists the
+        statements that modify the result object in place between the call and the store."""
+        ce = _call_element(fi, e)
+        if ce is None or _last(call_name(ce[0])) != 'assign_to_nearest_center':
             return None
-        try:
-            ds = fi.defs_of_use(e)
-        except Exception:
-            return None
-        if len(ds) != 1:
-            return None
-        d = next(iter(ds))
-        if not (isinstance(d, ast.Assign) and isinstance(d.value, ast.Call) and _last(call_name(d.value)) == 'assign_to_nearest_center'
-                and len(d.targets) == 1 and isinstance(d.targets[0], ast.Tuple) and len(d.targets[0].elts) == 2):
-            return None
-        for k, t in enumerate(d.targets[0].elts):
-            if isinstance(t, ast.Name) and t.id == e.id:
-                return d.value, k
-        return None
+        call, k, binders = ce
+        data = None
+        if atn is not None:
+            b = _bind(call, atn, cu_mod)
+            ps_ = params(atn)
+            if b is not None and ps_ and ps_[0] in b:
+                data = b[ps_[0]]
+        elif call.args:
+            data = call.args[0]
+        cst = fi.stmt(call)
+        changed = _changed_between(fi, mod, loop, binders, cst, store) if cst is not None else []
+        return call, k, data, changed
 
     from ..patterns import mask_atoms
     cells = [(rel, own) for rel in ('lt', 'eq', 'gt') for own in (True, False)]
     final = {}
+    edited = []
     order = {}
     for arr, kind in ((CD, 'dist'), (CA, 'label')):
         stores = [(s_, t) for s_, t in subscript_stores(loop, arr)]
@@ -1292,10 +1521,13 @@ def _candidate_partition(ck, R):
             elif same_mask(ve) and ve.value.id == (D if kind == 'dist' else A):
                 src = 'D' if kind == 'dist' else 'A'
             else:
-                ra = reassigned(_orig_name(fi, s_.value))
-                if ra is not None:
-                    call, k = ra
-                    a0 = call.args[0] if call.args else None
+                ra = reassigned(_orig_name(fi, s_.value), s_)
+                if ra is not None and ra[3]:
+                    # the result of the re-assignment is edited in place before it is stored: what the cell
+                    # receives is no longer the plain result of the call (src stays unknown)
+                    edited.append((s_, ra[3][0]))
+                elif ra is not None:
+                    call, k, a0, _ = ra
                     a0x = canon(fi.expand(a0, strict=False, stop=stop)) if a0 is not None else None
                     if a0x is not None and same_mask(a0x) and a0x.value.id == R.X and k == (1 if kind == 'dist' else 0):
                         src = ('R', id(call))
@@ -1330,7 +1562,7 @@ def _candidate_partition(ck, R):
                              'clustering of all frames' % (which, describe(c))))
             continue
         if 'U' in (vd, va):
-            unknown.append('%s: (%s, %s)' % (describe(c), vd, va))
+            unknown.append('%s: (%s, %s)' % (describe(c), 'R' if isinstance(vd, tuple) else vd, 'R' if isinstance(va, tuple) else va))
             continue
         isR = isinstance(vd, tuple) and isinstance(va, tuple)
         if isR and vd[1] == va[1]:
@@ -1363,7 +1595,11 @@ def _candidate_partition(ck, R):
         ck.bad(rule, mod, node, PAM, construct, why)
         return
     if unknown:
-        ck.missing(rule, 'filling of the candidate arrays not recognised for the frames with ' + '; '.join(unknown)[:300])
+        why = ''
+        if edited:
+            why = ' (the result of the re-assignment stored by `%s` is modified in place first: `%s`)' % (
+                u(edited[0][0])[:60], u(edited[0][1])[:60])
+        ck.missing(rule, 'filling of the candidate arrays not recognised for the frames with ' + '; '.join(unknown)[:300] + why)
         return
     ck.ok(rule, mod, loop, 'candidate arrays %s / %s: six cells of (%s vs %s) x (%s == %s)' % (CD, CA, D, N, A, cid),
           'every frame receives (N, centre id), (D, current label) or the result of the re-assignment, as its cell requires')
